@@ -2,15 +2,52 @@ use std::{
     cmp::Ordering,
     fmt::{self, Display, Formatter},
     hash::{Hash, Hasher},
-    str::FromStr,
 };
 
-use proc_macro2::Span;
+use proc_macro2::{Delimiter, Span, TokenStream, TokenTree};
 use quote::ToTokens;
 use syn::{spanned::Spanned, Path, Type};
 
+/// A type identified by its tokens. The string is the key for comparing, ordering and hashing; the tokens are what gets emitted.
 #[derive(Debug, Clone)]
-pub(crate) struct HashType(String, Span);
+pub(crate) struct HashType(String, Span, TokenStream);
+
+/// Prints tokens one by one, so that the key depends on the tokens only (not on how the source text was spaced).
+fn token_string(token_stream: TokenStream, s: &mut String) {
+    for token in token_stream {
+        if !s.is_empty() {
+            s.push(' ');
+        }
+
+        match token {
+            TokenTree::Group(group) => {
+                let (open, close) = match group.delimiter() {
+                    Delimiter::Parenthesis => ("(", ")"),
+                    Delimiter::Brace => ("{", "}"),
+                    Delimiter::Bracket => ("[", "]"),
+                    Delimiter::None => ("", ""),
+                };
+
+                s.push_str(open);
+                token_string(group.stream(), s);
+                s.push(' ');
+                s.push_str(close);
+            },
+            token => s.push_str(&token.to_string()),
+        }
+    }
+}
+
+impl HashType {
+    #[inline]
+    fn new(token_stream: TokenStream, span: Span) -> Self {
+        let mut s = String::new();
+
+        token_string(token_stream.clone(), &mut s);
+
+        Self(s, span, token_stream)
+    }
+}
 
 impl PartialEq for HashType {
     #[inline]
@@ -59,7 +96,7 @@ impl From<Type> for HashType {
 impl From<&Type> for HashType {
     #[inline]
     fn from(value: &Type) -> Self {
-        Self(value.into_token_stream().to_string(), value.span())
+        Self::new(value.into_token_stream(), value.span())
     }
 }
 
@@ -73,7 +110,7 @@ impl From<Path> for HashType {
 impl From<&Path> for HashType {
     #[inline]
     fn from(value: &Path) -> Self {
-        Self(value.into_token_stream().to_string(), value.span())
+        Self::new(value.into_token_stream(), value.span())
     }
 }
 
@@ -81,7 +118,7 @@ impl From<&Path> for HashType {
 impl HashType {
     #[inline]
     pub(crate) fn to_type(&self) -> Type {
-        syn::parse_str(self.0.as_str()).unwrap()
+        syn::parse2(self.2.clone()).unwrap()
     }
 
     #[inline]
@@ -93,8 +130,6 @@ impl HashType {
 impl ToTokens for HashType {
     #[inline]
     fn to_tokens(&self, token_stream: &mut proc_macro2::TokenStream) {
-        let ty = proc_macro2::TokenStream::from_str(self.0.as_str()).unwrap();
-
-        token_stream.extend(ty);
+        token_stream.extend(self.2.clone());
     }
 }
